@@ -24,6 +24,7 @@ func init() {
 			"stays valid. (S2) the interceptor/resolver container factories wrap the marshalizer with NewSizeCheckUnmarshalizer (5 reviewed sites). (S3) sizeCheckUnmarshalizer.Unmarshal returns nil only " +
 			"past the inner Unmarshal (error checked) and the size comparison. " +
 			"The size-check wrapper created by each container factory must also be used: stored, passed on or returned, not merely nil-checked. " +
+			"CheckValidity of both intercepted header kinds accepts only through error-checked VerifyRandSeedAndLeaderSignature and VerifySignature, on every path. " +
 			"Not decided (value-level): that the size tolerance leaves no room for a second encoding; protobuf decoding leniency itself.",
 		Run: runC18,
 	})
